@@ -193,6 +193,11 @@ def r5_limit_asserts(ck, F, R="C18-R5"):
                 okb = ed is not None and diverges(b, ed[2])
                 okl = (lim == 0xFFFFFFFF and e.x["op"] in ("Le", "Ge")) or (lim == 0x100000000 and e.x["op"] in ("Lt", "Gt"))
                 casts = [s for s, s_ in b.sites() if s.i is not None and s_["s"] == "assign" and s_["rv"]["rv"] == "cast" and s_["rv"]["to"] == "u32" and is_call(b.expr_of_operand(s_["rv"]["op"], s), "::len") and is_arg(b.expr_of_operand(s_["rv"]["op"], s).strip().a[0], who)]
+                # ... or the checked spelling of the same narrowing, `u32::try_from(x.len()).expect(..)` / `.try_into().unwrap()`
+                for s2, c2, t2 in b.calls():
+                    e2 = b._expr_of_def((s2, "call", t2))
+                    if e2.k == "cast" and e2.x.get("checked") and e2.x.get("to") == "u32" and is_call(e2.a[0], "::len") and is_arg(e2.a[0].strip().a[0], who):
+                        casts.append(s2)
                 okd = all(b.dominates(site, c) for c in casts) and len(casts) >= 1
                 found += 1
                 ck.ob(R, f"length-limit/{who}", okb and okl and okd, f"assert!({who}.len() <= u32::MAX) survives in config {F.config}, its false edge panics, and it dominates the `{who}.len() as u32` narrowing ({len(casts)} cast(s))", b, site)
